@@ -588,7 +588,18 @@ fn outcome<'a>(doc: &'a Document<'a>, pkgs: IndexMap<BorrowedPackageKey<'a>, Vec
     let r = catch_unwind(AssertUnwindSafe(|| match doc.resolve(pkgs) {
         Ok(res) => match res.encode(EncodeOptions::default()) {
             Ok(b) => format!("OK {}:{}", fnv(&b), b.len()),
-            Err(e) => format!("ENCERR {} {}", variant_of(&e), first_label(&e)),
+            Err(e) => {
+                // the validator's message, so that two failing encodings are compared by more than their variant
+                let mut msg = String::new();
+                let mut src: Option<&dyn std::error::Error> = std::error::Error::source(&e);
+                while let Some(x) = src {
+                    msg.push_str(&x.to_string());
+                    msg.push('/');
+                    src = x.source();
+                }
+                let msg: String = msg.chars().map(|c| if c.is_whitespace() { '_' } else { c }).take(160).collect();
+                format!("ENCERR {} {} {}", variant_of(&e), first_label(&e), msg)
+            }
         },
         Err(e) => format!("ERR {} {}", variant_of(&e), first_label(&e)),
     }));
